@@ -10,7 +10,10 @@ ranges, lengths, byte values or sample inputs anywhere in this module)
 * R1 layout arithmetic: (1) parsed C definition, attribute stores located through def-use; (3) the stored value and the
   array length are brought into *polynomial (linear) normal form* over the atoms len(metadata) / len(metadata.info)
   (`_lin`: `len(m) - 8`, `-8 + len(m)`, `len(m) - (4 + 4)`, `51 + len(m.info)` are the same form) and the constant terms
-  are compared with the fixed part computed from the C definition; (6) constant folding.
+  are compared with the fixed part computed from the C definition; (6) constant folding - including the grammar-level
+  constants of the definition text (`#define NAME <integer expression>`, `_grammar_consts`) that the array-length
+  expression names (a field of the structure shadows a constant, as in dissect.cstruct); an identifier of the length
+  expression that is neither a field nor a folded constant makes the obligation undecided.
 * R2 / R6(DOM) rejection rules of decrypt_metadata: (2) CFG reachability with infeasible branch edges pruned by a
   three-valued (True / False / both-by-lemma / unknown) evaluation of the branch tests under explicit, named
   assumptions, combined with (3)/(4) a forward data-flow propagation of the values of locals over the constant /
@@ -45,7 +48,12 @@ ranges, lengths, byte values or sample inputs anywhere in this module)
   (0, 16, 1) and (16, 32, 1).  Every place where a classified value enters an `aes_key` / `hmac_key` slot is checked
   for its role, every derivation for its seed (an `aes_rand` field / the wrapper's own parameter), terms compared
   structurally / by node identity of their defining expression.
-* R6 escape set: csverif.effects (engine; (1)/(2)).  R7: obligations of C19.R4 (imported).
+* R6 escape set: csverif.effects (engine; (1)/(2)), extended here (`_escape_engine`) with the meaning of `with` over a
+  generator-based context manager of the package (contextlib.contextmanager, one `yield` statement outside loops): the
+  may-raise set of `with g(..): BODY` is that of g's body with the `yield` standing for BODY (syntax-tree weaving over the
+  resolved callee (1); the engine's try / except filtering then applies to g's handlers); a `with` over a package class
+  whose `__exit__` raises / may return a truthy value makes the sites of its body uncertain (undecided, not a violation).
+  R7: obligations of C19.R4 (imported).
 * R8 every metadata encrypt_metadata produces is accepted by decrypt_metadata (no rejection for a well-formed metadata):
   the same value flow (`_Flow`, (2)/(3)) under the named assumption "the blob is a correctly encrypted metadata and no
   library call raises" (implicit exception edges are not followed), with the parsed fields in the *interval domain* (4)
@@ -66,9 +74,10 @@ from __future__ import annotations
 
 import ast
 import copy
+import re
 
 from csverif.astutil import (
-    assignments_to, bind_args, const_eval, dotted, fn_calls, kwarg, NotConst, params, src, statements, strip_cast,
+    assignments_to, bind_args, body_walk, const_eval, dotted, fn_calls, kwarg, NotConst, params, src, statements, strip_cast,
 )
 from csverif.cfg import ENTRY
 from csverif.q import FuncView, dominating_conditions, inline, origin, raise_class
@@ -129,14 +138,77 @@ def _cenv(ctx, f):
 
 
 # ======================================================================================================= generic helpers
-def _count_form(fld):
-    """Linear form of the array-length expression of a field of a C definition (None: not an array / not linear)."""
+_C_COMMENT = re.compile(r"//[^\n]*|/\*.*?\*/", re.S)
+_C_DEFINE = re.compile(r"^[ \t]*#define[ \t]+(\w+)[ \t]+(.+?)[ \t]*$", re.M)
+_C_INT_OPS = (ast.Add, ast.Sub, ast.Mult, ast.LShift, ast.RShift, ast.BitAnd, ast.BitOr, ast.BitXor)
+
+
+def _c_int_expr(e):
+    if isinstance(e, ast.Constant):
+        return isinstance(e.value, int) and not isinstance(e.value, bool)
+    if isinstance(e, ast.Name):
+        return True
+    if isinstance(e, ast.BinOp):
+        return isinstance(e.op, _C_INT_OPS) and _c_int_expr(e.left) and _c_int_expr(e.right)
+    if isinstance(e, ast.UnaryOp):
+        return isinstance(e.op, ast.USub) and _c_int_expr(e.operand)
+    return False
+
+
+def _grammar_consts(ctx, modname, cd):
+    """Grammar-level integer constants of the C definitions loaded into `cd`: `#define NAME <integer>` (engine parser) and
+    `#define NAME <integer expression>` over integer literals / earlier #defines with + - * << >> & | ^ and parentheses
+    (operators that mean the same in dissect.cstruct's expression language and in Python) - constant folding (6) of the
+    definition text; a #define that is not of that form is simply not known (an identifier that stays unresolved)."""
+    cache = ctx.__dict__.setdefault("_c06_gconsts", {})
+    key = (modname, cd.var)
+    if key in cache:
+        return cache[key]
+    out = dict(cd.defines)
+    mod = ctx.repo.modules.get(modname)
+    for name in cd.sources:
+        v = mod.consts.get(name) if mod is not None else None
+        if not (isinstance(v, ast.Constant) and isinstance(v.value, str)):
+            continue
+        for m in _C_DEFINE.finditer(_C_COMMENT.sub("", v.value)):
+            if m.group(1) in out:
+                continue
+            try:
+                e = ast.parse(m.group(2).strip(), mode="eval").body
+            except (SyntaxError, ValueError):
+                continue
+            val = _c(e, out.__getitem__) if _c_int_expr(e) else None
+            if isinstance(val, int) and not isinstance(val, bool):
+                out[m.group(1)] = val
+    cache[key] = out
+    return out
+
+
+def _count_expr(fld, consts=None, fields=()):
+    """The array-length expression of a field of a C definition as a syntax tree, with the grammar-level constants
+    (`#define`) it names replaced by their values.  dissect.cstruct resolves an identifier of such an expression first among
+    the fields of the structure and then among the constants, so a field name is never replaced.  None: not an array."""
     if fld is None or not fld.count:
         return None
     try:
-        return _lin_norm(_lin(ast.parse(fld.count.strip(), mode="eval").body))
-    except SyntaxError:
+        e = ast.parse(fld.count.strip(), mode="eval").body
+    except (SyntaxError, ValueError):
         return None
+    consts = consts or {}
+
+    class _S(ast.NodeTransformer):
+        def visit_Name(self, node):
+            if node.id in consts and node.id not in fields:
+                return ast.copy_location(ast.Constant(value=consts[node.id]), node)
+            return node
+
+    return _S().visit(e)
+
+
+def _count_form(fld, consts=None, fields=()):
+    """Linear form of the array-length expression of a field of a C definition (None: not an array / not linear)."""
+    e = _count_expr(fld, consts, fields)
+    return _lin_norm(_lin(e)) if e is not None else None
 
 
 def _default_struct_len(ctx, modname, e):
@@ -174,7 +246,7 @@ def _default_struct_len(ctx, modname, e):
     dyn = [x for x in st.fields if x.size is None]
     if len(dyn) != 1 or dyn[0] is not st.fields[-1]:
         return None
-    lf = _count_form(dyn[0])
+    lf = _count_form(dyn[0], _grammar_consts(ctx, sym.module, cd), {x.name for x in st.fields})
     scalars = {x.name for x in st.fields if x.count is None and x.size is not None}
     el = cd.type_size(dyn[0].type)
     if lf is None or not set(lf) <= scalars | {""} or el is None or not el[0]:
@@ -962,7 +1034,8 @@ def run(ctx):
     rep = ctx.rep
     rep.explanation = (
         "Static analysis of c_c2.py/c2.py/client.py: BeaconMetadata layout arithmetic from C2_DEF (fixed part 59 bytes, "
-        "size-51 array, len-8 size field, compared as linear normal forms), CFG reachability of a return / of the struct "
+        "size-51 array with #define constants folded, len-8 size field, compared as linear normal forms), may-raise set of "
+        "decrypt_metadata (a generator-based context manager is woven into the with statement that uses it), CFG reachability of a return / of the struct "
         "parse in decrypt_metadata under the named cases 'the decryption result is the sentinel the code passes', 'it is "
         "the empty bytes value', 'it is a real plaintext whose parsed magic is 0xBEEF / is any other 32-bit value' "
         "(forward propagation of constants, nullness and truthiness; branch tests evaluated three-valued, comparisons "
@@ -978,6 +1051,8 @@ def run(ctx):
         "field-for-field equality after RSA for all values (cstruct dumps/parse round trip and RSA are library behaviour)",
         "PKCS#1 v1.5 limits (library)",
         "rejection tests of decrypt_metadata that combine several correlated comparisons of the magic, or compute with the plaintext, are reported undecided",
+        "R1: an array-length expression that names an identifier which is neither a field nor a #define with a foldable integer value is reported undecided",
+        "R6: exceptions of a with-body whose context manager is a package class with an __exit__ that raises / may return a truthy value are reported undecided",
         "R8: rejections of decrypt_metadata guarded by two or more undecided-by-one-lemma tests, by tests of array fields / of the plaintext content / of the key, or inside loops are reported undecided; RSA keys other than 1024 / 2048 bits are outside the domain (size field bounded by the RSA-2048 limit)",
     ]
     rep.trusted_base = [
@@ -988,6 +1063,8 @@ def run(ctx):
         "lemma: x & (2^w - 1) == x for 0 <= x < 2^w; (v & M) == (c & M) has both outcomes for v != c when M is neither 0 nor all ones (flip a bit outside / inside M)",
         "lemma: over the integers a >= b <=> a - b + 1 > 0 and not (a > b) <=> b - a + 1 > 0 (linear normal form of the length bound)",
         "R8 domain: a metadata produced by encrypt_metadata has size = len - 8 = 51 + len(info) (R1) with 59 + len(info) <= modulus - 11 (PKCS#1 v1.5), every other field any value of its C type; the parse of such a plaintext does not raise (dissect.cstruct)",
+        "dissect.cstruct: an identifier of an array-length expression is resolved among the fields of the structure first, then among the #define constants; + - * << >> & | ^ mean the same as in Python",
+        "contextlib.contextmanager: an exception of the with-body is thrown into the generator at its yield; what the generator raises or lets through leaves the with statement",
         "dissect.cstruct: the fields of a default-constructed structure are 0 / empty and an array of non-positive computed length serialises to nothing (len(BeaconMetadata()) == fixed part)",
         "lemmas: [lo, hi) +/- c is the shifted interval (Python integers do not wrap); s + a <op> s + b <=> a <op> b; an integer is truthy iff it is != 0; equal values of builtin types have equal truthiness",
     ]
@@ -1058,19 +1135,20 @@ def r1(ctx):
     s = cd.struct("BeaconMetadata")
     fixed = s.fixed_prefix_size
     info = s.field("info")
-    # info[size - k1]
+    # info[size - k1]; grammar-level constants (`#define`) named by the length expression are folded (6)
     k1 = None
-    if info is not None and info.count:
-        try:
-            lf = _lin_norm(_lin(ast.parse(info.count.strip(), mode="eval").body))
-        except SyntaxError:
-            lf = None
-        if lf is not None and set(lf) <= {"size", ""} and lf.get("size") == 1:
-            k1 = -lf.get("", 0)
+    fnames = {x.name for x in s.fields}
+    lf = _count_form(info, _grammar_consts(ctx, "c_c2", cd), fnames)
+    # identifiers of the length expression that are neither a field nor a constant whose value is known
+    unresolved = sorted(k for k in (lf or {}) if k and k not in fnames)
+    if lf is not None and set(lf) <= {"size", ""} and lf.get("size") == 1:
+        k1 = -lf.get("", 0)
     f, mp, _kp = _encrypt_subject(ctx)
     stores = _size_stores(f, mp) if mp else []
     layout_ok = info is not None and info is s.fields[-1] and k1 is not None
-    if not layout_ok:
+    if not layout_ok and info is not None and info is s.fields[-1] and unresolved:
+        ctx.undecided("R1", "TABLE", where, "layout arithmetic", f"the length expression info[{info.count}] names {unresolved}: neither a field of the structure nor a `#define` whose integer value could be folded")
+    elif not layout_ok:
         ctx.ob("R1", "TABLE", where, "layout arithmetic", False, f"the variable part must be the last field `info[size - k]`; got info[{info.count if info else None}]")
     elif not stores:
         ctx.undecided("R1", "TABLE", where, "layout arithmetic", f"fixed part {fixed} bytes, info[{info.count}]; no store of the size field of the metadata parameter was located in encrypt_metadata (see R4)")
@@ -1969,11 +2047,125 @@ def r5(ctx):
 
 
 # ================================================================================================================== R6
+def _generator_cm(ctx, f, e, active=()):
+    """(g, yield statement) if expression e is a call of a package function g that is a generator-based context manager
+    (decorated with contextlib.contextmanager - import aliases resolved) whose body has exactly one `yield`, as a statement
+    of its own and outside every loop; else None."""
+    if not isinstance(e, ast.Call):
+        return None
+    cal = ctx.rs.resolve_call(f, e)
+    g = cal.func if cal.kind == "func" else None
+    if g is None or not isinstance(g.node, ast.FunctionDef) or g.fq == f.fq or g.fq in active:
+        return None
+
+    def is_cm(d):
+        sym = ctx.rs.lookup_dotted(g.module.name, dotted(d)) if dotted(d) else None
+        return sym is not None and sym.kind == "external" and sym.name == "contextlib.contextmanager"
+
+    if len(g.node.decorator_list) != 1 or not is_cm(g.node.decorator_list[0]):
+        return None
+    ys = [n for n in body_walk(g.node) if isinstance(n, (ast.Yield, ast.YieldFrom, ast.Await))]
+    if len(ys) != 1 or not isinstance(ys[0], ast.Yield):
+        return None
+    fv = FuncView.of(g.node)
+    st = fv.stmt_of(ys[0])
+    if not (isinstance(st, ast.Expr) and st.value is ys[0]) or fv.enclosing(st, (ast.For, ast.AsyncFor, ast.While)) is not None:
+        return None
+    return g, st
+
+
+def _class_cm_exit(ctx, f, e):
+    """The `__exit__` method (own or inherited, of the package) of the class instantiated by expression e when that method
+    can change the exception flow of a `with` body: it raises, or returns something other than a falsy constant (a truthy
+    result swallows the exception).  None otherwise."""
+    if not isinstance(e, ast.Call):
+        return None
+    cal = ctx.rs.resolve_call(f, e)
+    if cal.kind != "class" or not cal.fq:
+        return None
+    mname, _, cname = cal.fq.partition(".")
+    sym = ctx.rs.lookup_dotted(mname, f"{cname}.__exit__")
+    g = ctx.repo.modules[sym.module].funcs.get(sym.name) if sym is not None and sym.kind == "func" and sym.module in ctx.repo.modules else None
+    if g is None:
+        return None
+    for st in statements(g.node):
+        if isinstance(st, ast.Raise):
+            return g
+        if isinstance(st, ast.Return) and st.value is not None and not (isinstance(st.value, ast.Constant) and not st.value.value):
+            return g
+    return None
+
+
+def _escape_engine(ctx):
+    """The escape analysis of the engine (csverif.effects.Escape) with the meaning of a generator-based context manager:
+    `with g(..): BODY` for a package function g decorated with contextlib.contextmanager that has exactly one `yield`
+    statement (outside loops) runs g's body with BODY in the place of the `yield` - contextlib throws an exception of BODY
+    into the generator at the `yield`, what the generator raises (or lets through) leaves the `with`, what it catches and
+    does not re-raise is swallowed.  So the may-raise set of the statement is that of g's body with the `yield` statement
+    standing for BODY; the engine's own treatment of try / except then applies to g's handlers.  A `with` over a package
+    class whose `__exit__` raises or may return a truthy value translates / swallows exceptions of BODY in a way that is
+    not followed: what `__enter__` / `__exit__` raise is charged, and the sites of BODY are *uncertain* (the engine reports
+    an escape that hinges on them as undecided).  Any other `with` is the engine's (context expression + body, nothing
+    filtered).  Syntax-tree weaving over resolved callees (1)/(2)."""
+    from csverif import effects
+
+    class _Escape(effects.Escape):
+        def __init__(self, c):
+            super().__init__(c)
+            self._woven = {}  # id(yield statement) -> may-raise set of the with-body that stands in its place
+
+        def stmt(self, f, st):
+            if isinstance(st, ast.Expr) and id(st) in self._woven:
+                return set(self._woven[id(st)])
+            if isinstance(st, ast.With) and any(_generator_cm(self.ctx, f, i.context_expr, self.active) or _class_cm_exit(self.ctx, f, i.context_expr) for i in st.items):
+                return self._with(f, st, 0)
+            return super().stmt(f, st)
+
+        def _with(self, f, st, i):
+            """`with i0, i1, ..: BODY` is `with i0: with i1: ..: BODY`"""
+            if i == len(st.items):
+                return self.block(f, st.body)
+            c = st.items[i].context_expr
+            cm = _generator_cm(self.ctx, f, c, self.active)
+            ex = _class_cm_exit(self.ctx, f, c) if cm is None else None
+            if ex is not None:
+                frame = f"{f.fq}:{c.lineno}"
+                out = self.exprs(f, st, [c])
+                enter = self.repo.modules[ex.module.name].funcs.get(ex.qualname.rsplit(".", 1)[0] + ".__enter__")
+                for m in (enter, ex):
+                    if m is not None:
+                        out |= {e.via(frame) for e in self.function_effects(m)}
+                inner = self._with(f, st, i + 1)
+                self.uncertain_sites |= {e.site for e in inner}
+                return out | inner
+            if cm is None:
+                return self.exprs(f, st, [c]) | self._with(f, st, i + 1)
+            g, ystmt = cm
+            out = self.exprs(f, st, list(c.args) + [k.value for k in c.keywords])
+            inner = self._with(f, st, i + 1)
+            saved = self._woven.get(id(ystmt))
+            self._woven[id(ystmt)] = inner
+            self.active.add(g.fq)
+            self.visited_funcs.add(g.fq)
+            try:
+                woven = self.block(g, g.node.body)
+            finally:
+                self.active.discard(g.fq)
+                if saved is None:
+                    self._woven.pop(id(ystmt), None)
+                else:
+                    self._woven[id(ystmt)] = saved
+            frame = f"{f.fq}:{c.lineno}"
+            return out | {e if e in inner else e.via(frame) for e in woven}
+
+    return _Escape(ctx)
+
+
 def r6(ctx):
     """Blobs that do not decrypt / do not parse are rejected with ValueError: escape set of decrypt_metadata."""
     from csverif import effects
 
-    effects.check_escape(ctx, "R6", ["c2.decrypt_metadata"], {"ValueError"})
+    effects.check_escape(ctx, "R6", ["c2.decrypt_metadata"], {"ValueError"}, esc=_escape_engine(ctx))
     # the emptiness of the decrypted plaintext is tested as well: some pycryptodome versions hand back b"" instead of
     # the (non-bytes) sentinel for a padding failure
     f, d, _ctor = _decrypt_subject(ctx)
@@ -2015,9 +2207,10 @@ def _wellformed_fields(ctx):
     if s is None or not s.fields:
         return None, "struct BeaconMetadata not found"
     info = s.fields[-1]
-    lf = _count_form(info)
+    lf = _count_form(info, _grammar_consts(ctx, "c_c2", cd), {x.name for x in s.fields})
     names = [k for k in (lf or {}) if k]
-    if lf is None or info.size is not None or len(names) != 1 or lf[names[0]] != 1 or any(x.size is None for x in s.fields[:-1]):
+    lenfld = s.field(names[0]) if len(names) == 1 else None
+    if lf is None or info.size is not None or lenfld is None or lenfld is info or lenfld.count is not None or lf[names[0]] != 1 or any(x.size is None for x in s.fields[:-1]):
         return None, f"the variable part is not a trailing array `[<length field> - k]` (got [{info.count}])"
     lenf, k = names[0], -lf.get("", 0)
     fixed = s.fixed_prefix_size
